@@ -114,6 +114,44 @@ func (fsm *storeFSM) Apply(l *raft.Log) interface{} {
 	return err
 }
 
+// commandExtensions lists, for every command type handled by storeFSM.Apply, the
+// extension that carries the command. A command is only proposed to raft if its
+// type is listed here and that extension can be decoded (see validateCommand).
+var commandExtensions = map[internal.Command_Type]*proto.ExtensionDesc{
+	internal.Command_RemovePeerCommand:            internal.E_RemovePeerCommand_Command,
+	internal.Command_CreateNodeCommand:            internal.E_CreateNodeCommand_Command,
+	internal.Command_DeleteNodeCommand:            internal.E_DeleteNodeCommand_Command,
+	internal.Command_CreateDatabaseCommand:        internal.E_CreateDatabaseCommand_Command,
+	internal.Command_DropDatabaseCommand:          internal.E_DropDatabaseCommand_Command,
+	internal.Command_CreateRetentionPolicyCommand: internal.E_CreateRetentionPolicyCommand_Command,
+	internal.Command_DropRetentionPolicyCommand:   internal.E_DropRetentionPolicyCommand_Command,
+	internal.Command_UpdateRetentionPolicyCommand: internal.E_UpdateRetentionPolicyCommand_Command,
+	internal.Command_CreateShardGroupCommand:      internal.E_CreateShardGroupCommand_Command,
+	internal.Command_DeleteShardGroupCommand:      internal.E_DeleteShardGroupCommand_Command,
+	internal.Command_CreateContinuousQueryCommand: internal.E_CreateContinuousQueryCommand_Command,
+	internal.Command_DropContinuousQueryCommand:   internal.E_DropContinuousQueryCommand_Command,
+	internal.Command_CreateSubscriptionCommand:    internal.E_CreateSubscriptionCommand_Command,
+	internal.Command_DropSubscriptionCommand:      internal.E_DropSubscriptionCommand_Command,
+	internal.Command_CreateUserCommand:            internal.E_CreateUserCommand_Command,
+	internal.Command_DropUserCommand:              internal.E_DropUserCommand_Command,
+	internal.Command_UpdateUserCommand:            internal.E_UpdateUserCommand_Command,
+	internal.Command_SetPrivilegeCommand:          internal.E_SetPrivilegeCommand_Command,
+	internal.Command_SetAdminPrivilegeCommand:     internal.E_SetAdminPrivilegeCommand_Command,
+	internal.Command_SetDataCommand:               internal.E_SetDataCommand_Command,
+	internal.Command_UpdateNodeCommand:            internal.E_UpdateNodeCommand_Command,
+	internal.Command_CreateMetaNodeCommand:        internal.E_CreateMetaNodeCommand_Command,
+	internal.Command_DeleteMetaNodeCommand:        internal.E_DeleteMetaNodeCommand_Command,
+	internal.Command_SetMetaNodeCommand:           internal.E_SetMetaNodeCommand_Command,
+	internal.Command_CreateDataNodeCommand:        internal.E_CreateDataNodeCommand_Command,
+	internal.Command_DeleteDataNodeCommand:        internal.E_DeleteDataNodeCommand_Command,
+	internal.Command_UpdateDataNodeCommand:        internal.E_UpdateDataNodeCommand_Command,
+	internal.Command_DropShardCommand:             internal.E_DropShardCommand_Command,
+	internal.Command_TruncateShardGroupsCommand:   internal.E_TruncateShardGroupsCommand_Command,
+	internal.Command_PruneShardGroupsCommand:      internal.E_PruneShardGroupsCommand_Command,
+	internal.Command_CopyShardOwnerCommand:        internal.E_CopyShardOwnerCommand_Command,
+	internal.Command_RemoveShardOwnerCommand:      internal.E_RemoveShardOwnerCommand_Command,
+}
+
 func (fsm *storeFSM) applyRemovePeerCommand(cmd *internal.Command) interface{} {
 	ext, _ := proto.GetExtension(cmd, internal.E_RemovePeerCommand_Command)
 	v := ext.(*internal.RemovePeerCommand)
